@@ -55,8 +55,47 @@ func pickName(r *hx.Rand, allowBad bool) string {
 	return cfgNames[r.Intn(len(cfgNames))]
 }
 
+// danglingName: a name that does not exist among the entries of the referenced kind: "nosuch", or (60% when
+// there is one) the name of an entry of ANOTHER kind of the same configuration
+func danglingName(r *hx.Rand, sum *hx.Summary, right []string, others ...[]string) string {
+	var cand []string
+	for _, o := range others {
+		for _, n := range o {
+			ok := n != ""
+			for _, x := range right {
+				if x == n {
+					ok = false
+				}
+			}
+			if ok {
+				cand = append(cand, n)
+			}
+		}
+	}
+	if len(cand) > 0 && r.Chance(60) {
+		sum.Count("bad:dangling-named-like-another-kind")
+		return cand[r.Intn(len(cand))]
+	}
+	return "nosuch"
+}
+
 func genConfig(r *hx.Rand, valid bool, sum *hx.Summary) *genCfg {
 	g := &genCfg{adminOK: true}
+	namesOf := func() (comp, caches, ups, locs []string) {
+		for _, c := range g.cfg.Compresses {
+			comp = append(comp, c.Name)
+		}
+		for _, c := range g.cfg.Caches {
+			caches = append(caches, c.Name)
+		}
+		for _, u := range g.cfg.Upstreams {
+			ups = append(ups, u.Name)
+		}
+		for _, l := range g.cfg.Locations {
+			locs = append(locs, l.Name)
+		}
+		return
+	}
 	bad := func(p int) bool { return !valid && r.Chance(p) }
 	if r.Chance(30) {
 		g.cfg.Admin = config.AdminConfig{User: "admin", Password: "123456"}
@@ -167,7 +206,8 @@ func genConfig(r *hx.Rand, valid bool, sum *hx.Summary) *genCfg {
 			l.RespHeaders = []string{"X-Resp:2"}
 		}
 		if !valid && r.Chance(12) { // dangling upstream, more often on a later location
-			l.Upstream = "nosuch"
+			comp, caches, ups, locs := namesOf()
+			l.Upstream = danglingName(r, sum, ups, comp, caches, append(locs, l.Name))
 			sum.Count("bad:dangling-upstream")
 		}
 		if bad(3) {
@@ -218,13 +258,16 @@ func genConfig(r *hx.Rand, valid bool, sum *hx.Summary) *genCfg {
 		if !valid {
 			switch r.Intn(14) {
 			case 0:
-				s.Locations = append(s.Locations, "nosuch")
+				comp, caches, ups, locs := namesOf()
+				s.Locations = append(s.Locations, danglingName(r, sum, locs, comp, caches, ups))
 				sum.Count("bad:dangling-location")
 			case 1:
-				s.Cache = "nosuch"
+				comp, caches, ups, locs := namesOf()
+				s.Cache = danglingName(r, sum, caches, comp, ups, locs)
 				sum.Count("bad:dangling-cache")
 			case 2:
-				s.Compress = "nosuch"
+				comp, caches, ups, locs := namesOf()
+				s.Compress = danglingName(r, sum, comp, caches, ups, locs)
 				sum.Count("bad:dangling-compress")
 			case 3:
 				s.CompressMinLength = "abc"
@@ -346,7 +389,7 @@ func serverResolves(addr string) bool {
 func runConfig(seed uint64, n int, tier string, out string, replay string) {
 	rnd := hx.NewRand(seed)
 	sum := hx.NewSummary("config", seed)
-	sum.Rule = "one case = one generated configuration (0-2 compress profiles, 1-2 caches, 1-3 upstreams, 1-4 locations, 1-3 servers; names drawn from small pools so duplicates occur); 45% valid (of which 15% then get exactly one malformed upstream field: health path, policy or an address — wrong scheme, or right scheme but not parseable as a URL); the others carry 1-3 defects: each kind of dangling reference (upstream on any location incl. later ones, location / cache / compress on a server) and each kind of malformed field (durations, sizes, regexps, addresses, url paths, divide pairs, hostnames, policy, names too long or empty, empty required lists); Validate's verdict is compared, accepted configurations are applied through the five Reset functions and every server is probed; every accepted configuration also goes through Write/Read (YAML file client) with every remark field set to a string from a pool of 35 that need quoting (multi-line with and without final newline, leading/trailing blanks, YAML keywords, numbers, indicators, unicode, CRLF) and is compared field by field (directly, and again through the admin GET /config handler with the upstreams live), twice in a row through the same client (second document: other remarks, sometimes fewer sections); a Write or Read error on an accepted configuration is reported too; non-trivial = rejected for a reference error or accepted with >= 2 servers; distinct by configuration"
+	sum.Rule = "one case = one generated configuration (0-2 compress profiles, 1-2 caches, 1-3 upstreams, 1-4 locations, 1-3 servers; names drawn from small pools so duplicates occur); 45% valid (of which 15% then get exactly one malformed upstream field: health path, policy or an address — wrong scheme, or right scheme but not parseable as a URL); the others carry 1-3 defects: each kind of dangling reference (upstream on any location incl. later ones, location / cache / compress on a server; the dangling name is 'nosuch' or the name of an entry of another kind) and each kind of malformed field (durations, sizes, regexps, addresses, url paths, divide pairs, hostnames, policy, names too long or empty, empty required lists); Validate's verdict is compared, accepted configurations are applied through the five Reset functions and every server is probed; every accepted configuration also goes through Write/Read (YAML file client) with every remark field set to a string from a pool of 35 that need quoting (multi-line with and without final newline, leading/trailing blanks, YAML keywords, numbers, indicators, unicode, CRLF) and is compared field by field (directly, and again through the admin GET /config handler with the upstreams live), twice in a row through the same client (second document: other remarks, sometimes fewer sections); a Write or Read error on an accepted configuration is reported too; non-trivial = rejected for a reference error or accepted with >= 2 servers; distinct by configuration"
 	header := "From Coq Require Import List NArith ZArith.\nImport ListNotations.\nFrom Pike Require Import Base.Bytes Model.Config Corr.ConfigCorr.\n"
 	w := hx.NewCaseWriter(out, "config", header, "list cf_case", "check_cases", 60, sum)
 	distinct := hx.NewDistinct()
